@@ -1,8 +1,179 @@
-import BrushVerif.Model.Wire
-/-! Driver for C06 (stub until the property's model exists). -/
-namespace BrushVerif.Drv.C06
-open BrushVerif.Wire
+import BrushVerif.Model.ParamOps
+import BrushVerif.Spec.ParamOps
+/-!
+Driver for C06.
 
-def handle (_toks : List Str) : Str := "unimplemented".toList
+Request tokens: `<nounset 0|1> <param…> <op…>`
+  param:  `N <val>` | `N!` | `E <val>` | `E!1` | `E!0` | `D <val>` | `D!` |
+          `A@ <k> v1 … vk` | `A* <k> …` | `P@ <k> …` | `P* <k> …`
+  op:     `plain` | `len` | `sub <off> <len|->` | `t <-|=|?|+> <colon 0|1> <word>` |
+          `rm <#|##|%|%%> <pat|!>`
+  pat:    escaped string over `L<c>` literal, `Q` = `?`, `S` = `*`, `B+<chars>;` / `B-<chars>;` bracket
+Response: `<impl> | <spec> | <clauses>[ | <variant>]*` where impl/spec are `OK f1 … ;S v` / `ERR ;U` / `PANIC ;N` …
+(same format as harness/src/bin/c06.rs) and clauses is `-` or a comma-separated list of the
+domain guards of the `_partial` theorems the case falls outside of.
+-/
+namespace BrushVerif.Drv.C06
+open BrushVerif.Wire BrushVerif.ParamOps BrushVerif.ParamSpec
+
+def parsePatGo : Nat → Str → Option Pat
+  | 0, _ => none
+  | _ + 1, [] => some []
+  | f + 1, 'L' :: c :: r => (parsePatGo f r).map (PElem.lit c :: ·)
+  | f + 1, 'Q' :: r => (parsePatGo f r).map (PElem.any :: ·)
+  | f + 1, 'S' :: r => (parsePatGo f r).map (PElem.star :: ·)
+  | f + 1, 'B' :: sign :: r =>
+    let cs := r.takeWhile (· != ';')
+    (parsePatGo f (r.drop (cs.length + 1))).map (PElem.set (sign == '-') cs :: ·)
+  | _ + 1, _ => none
+
+def parsePat (s : Str) : Option Pat := parsePatGo (s.length + 1) s
+
+def parseParam : List Str → Option (Param × List Str)
+  | ['N'] :: v :: r => some (.named (some (unesc v)), r)
+  | ['N', '!'] :: r => some (.named none, r)
+  | ['E'] :: v :: r => some (.elem (some (unesc v)) true, r)
+  | ['E', '!', '1'] :: r => some (.elem none true, r)
+  | ['E', '!', '0'] :: r => some (.elem none false, r)
+  | ['D'] :: v :: r => some (.pos (some (unesc v)), r)
+  | ['D', '!'] :: r => some (.pos none, r)
+  | [k, st] :: n :: r =>
+    match parseNat? n with
+    | none => none
+    | some cnt =>
+      let vals := (r.take cnt).map unesc
+      let rest := r.drop cnt
+      let star := st == '*'
+      if k == 'A' then some (.all vals star, rest)
+      else if k == 'P' then some (.posAll vals star, rest)
+      else none
+  | _ => none
+
+def parseOp (t : List Str) : Option (Op × Option Pat) :=
+  match t with
+  | [w] => if w = "plain".toList then some (.plain, none) else if w = "len".toList then some (.len, none) else none
+  | [w, o, l] =>
+    if w = "sub".toList then
+      match parseInt? o with
+      | none => none
+      | some off =>
+        if l = ['-'] then some (.sub off none, none)
+        else (parseInt? l).map (fun lv => (.sub off (some lv), none))
+    else if w = "rm".toList then
+      let kind? : Option RmKind :=
+        if o = ['#'] then some ⟨false, false⟩ else if o = ['#', '#'] then some ⟨false, true⟩
+        else if o = ['%'] then some ⟨true, false⟩ else if o = ['%', '%'] then some ⟨true, true⟩ else none
+      match kind? with
+      | none => none
+      | some kind =>
+        if l = ['!'] then some (.rm kind false, none)
+        else (parsePat (unesc l)).map (fun pat => (.rm kind true, some pat))
+    else none
+  | [w, k, c, wd] =>
+    if w = ['t'] then
+      let op? : Option TestOp :=
+        if k = ['-'] then some .useDefault else if k = ['='] then some .assignDefault
+        else if k = ['?'] then some .errorIfUnset else if k = ['+'] then some .useAlternative else none
+      op?.map (fun op => (.test op (c = ['1']) (unesc wd), none))
+    else none
+  | _ => none
+
+def showRes (r : Res) : Str :=
+  match r with
+  | .ok e => joinWith [' '] ("OK".toList :: (quotedFields e).map esc)
+  | .err => "ERR".toList
+  | .panic => "PANIC".toList
+
+/-- value of the probed parameter afterwards -/
+def showProbe (p : Param) (o : Outcome) : Str :=
+  match p with
+  | .named v | .elem v _ =>
+    match o.assigned, v with
+    | some w, _ => ";S ".toList ++ esc w
+    | none, some s => ";S ".toList ++ esc s
+    | none, none => ";U".toList
+  | _ => ";N".toList
+
+def showOutcome (p : Param) (o : Outcome) : Str := showRes o.res ++ [' '] ++ showProbe p o
+
+def hasNewline (s : Str) : Bool := s.contains '\n'
+def isAscii (s : Str) : Bool := s.all (fun c => c.toNat < 0x80)
+
+def paramStrings : Param → List Str
+  | .named (some s) | .elem (some s) _ | .pos (some s) => [s]
+  | .named none | .elem none _ | .pos none => []
+  | .all vals _ | .posAll vals _ => vals
+
+def isScalar : Param → Bool
+  | .all _ _ | .posAll _ _ => false
+  | _ => true
+
+/-- the guards of the `_partial` theorems this case violates -/
+def clauses (p : Param) (pat : Option Pat) : Op → List String
+  | .rm k true =>
+    let pt := pat.getD []
+    (if !k.largest && globMatch pt [] then ["shortest_match_skips_empty"] else []) ++
+    (if (paramStrings p).any hasNewline then ["pattern_anchors_at_newlines"] else [])
+  | .sub off len =>
+    (match len with | some l => if l < 0 then ["substring_negative_length"] else [] | none => []) ++
+    (if isScalar p && off < 0 && !(paramStrings p).all isAscii then ["length_counts_bytes"] else [])
+  | .len => if isScalar p && !(paramStrings p).all isAscii then ["length_counts_bytes"] else []
+  | .test op colon _ =>
+    match p with
+    | .all vals star | .posAll vals star =>
+      (if colon && vals.length ≥ 2 && vals.all (·.isEmpty) then ["all_null_elements_count_as_null"] else []) ++
+      (if op = .useAlternative && vals.isEmpty && !star then ["at_alternative_on_empty_list_keeps_field"] else [])
+    | _ => []
+  | _ => []
+
+/-- The Impl model with one or more of the proposed repairs applied (`removeSmallest*Fixed`,
+`substrBoundsFixed`, `polyLenChars`): what brush computes once a recorded defect has been repaired
+while others remain.  Only operators touched by a repair have variants. -/
+def variants (p : Param) (nounset : Bool) (m : Str → Bool) : Op → List Outcome
+  | .rm k true =>
+    let f : Str → Str := if k.largest then removeWith k m
+      else if k.suffix then removeSmallestSuffixFixed m else removeSmallestPrefixFixed m
+    match expandParam p false nounset with
+    | some e => [{ res := .ok (mapFields e f) }]
+    | none => []
+  | .sub off len =>
+    match expandParam p false nounset with
+    | some e0 =>
+      let e := match p with
+        | .posAll _ _ => { e0 with fields := shellName :: e0.fields }
+        | _ => e0
+      let withFixedBounds (plen : Nat) : Res :=
+        match substrBoundsFixed (Int.ofNat plen) off len with
+        | none => .err
+        | some b => polySubslice e (asUsize b.1) (asUsize b.2)
+      let oldBoundsChars : Res :=
+        let b := substrBounds (Int.ofNat (polyLenChars e)) off len
+        polySubslice e (asUsize b.1) (asUsize b.2)
+      [{ res := withFixedBounds (polyLen e) }, { res := oldBoundsChars }, { res := withFixedBounds (polyLenChars e) }]
+    | none => []
+  | .len =>
+    match expandExpr p nounset m .len, expandParam p true nounset with
+    | { res := .ok _, .. }, some e => [{ res := .ok (ofStr (natToStr (polyLenChars e))) }]
+    | _, _ => []
+  | _ => []
+
+def handle (toks : List Str) : Str :=
+  match toks with
+  | nu :: rest =>
+    match parseParam rest with
+    | none => "bad-param".toList
+    | some (p, opToks) =>
+      match parseOp opToks with
+      | none => "bad-op".toList
+      | some (op, pat) =>
+        let nounset := nu = ['1']
+        let pt := pat.getD []
+        let i := expandExpr p nounset (brushMatch pt) op
+        let s := bashExpr p nounset (globMatch pt) op
+        let cl := clauses p pat op
+        showOutcome p i ++ " | ".toList ++ showOutcome p s ++ " | ".toList ++
+          (if cl.isEmpty then ['-'] else (String.intercalate "," cl).toList) ++
+          ((variants p nounset (brushMatch pt) op).flatMap fun v => " | ".toList ++ showOutcome p v)
+  | _ => "bad-request".toList
 
 end BrushVerif.Drv.C06
